@@ -68,10 +68,13 @@ ERR = {"UnitConversionNotDefinedError": 1, "NotImplementedError": 2, "ConverterF
 class C06(Prop):
     id = "C06"
     coq_header = "From PdV.Corr Require Import C06."
+    coq_case_type = "C06.case2"
+    coq_check = "C06.check2"
     rule = ("tables with int / float (with NaN) numeric columns in units of three families plus text / onoff / datetime "
             "columns, row index default / permuted / non-default integers / strings, x dispatcher forms 'base', list, "
             "dict, callable, 'origin' x an affine test converter with known result (optionally failing for one unit), "
-            "and the pint converter in every 8th case; non-trivial = at least one column actually converted or refused")
+            "and the pint converter in every 8th case; each case also sends the table through normalized_table_generator "
+            "(pdtable/utils.py) in a four-block stream, dispatched by table name through a dict or a callable; non-trivial = at least one column actually converted or refused")
     assumptions = ["converters are pure functions of (values, from_unit, to_unit)",
                    "H_copy: Table(self.df.copy()) yields a frame whose data and metadata are independent of the original (C05)"]
 
@@ -188,6 +191,8 @@ class C06(Prop):
         finally:
             pdtable.units.default_converter = old_default
         obs["after"] = snapshot(t)
+        if not case["pint"] and mode == "none" and case["form"] != "origin":
+            obs["stream"] = self._run_stream(case, conv)
         # what the converter itself gives for each column and target (ground truth for the oracle and
         # the lookup table of the model)
         calls = []
@@ -205,6 +210,37 @@ class C06(Prop):
         obs["calls"] = calls
         return obs
 
+    def _run_stream(self, case, conv):
+        """normalized_table_generator over: a directive, the table, a blank slot, the same table under another
+        name (not dispatched); the table-level dispatcher is a dict or a callable by table name."""
+        import warnings
+
+        from pdtable import BlockType
+        from pdtable.utils import normalized_table_generator
+
+        t = self._build(case)
+        t2 = self._build(case)
+        t2.metadata.name = "other"
+        marker = object()
+        blocks = [(BlockType.DIRECTIVE, marker), (BlockType.TABLE, t), (BlockType.BLANK, None), (BlockType.TABLE, t2)]
+        to = self._to(case)
+        td = {"t": to} if len(case["cols"]) % 2 else (lambda name: to if name == "t" else None)
+        out = {"n": 0, "kinds": [], "tables": []}
+        try:
+            with warnings.catch_warnings():
+                warnings.simplefilter("ignore")
+                for bt, b in normalized_table_generator(iter(blocks), td, conv):
+                    out["n"] += 1
+                    out["kinds"].append(bt.name)
+                    if bt == BlockType.TABLE:
+                        out["tables"].append(snapshot(b))
+                    elif b is not marker and b is not None:
+                        out["foreign"] = True
+        except Exception as e:
+            out["error"] = type(e).__name__
+        out["sources_after"] = [snapshot(t), snapshot(t2)]
+        return out
+
     def _effective_targets(self, case):
         cols = case["cols"]
         f = case["form"]
@@ -215,7 +251,7 @@ class C06(Prop):
         return list(case["targets"])[: len(cols)] + [None] * max(0, len(cols) - len(case["targets"]))
 
     def oracle(self, case, obs):
-        fails = []
+        fails = self.stream_oracle(case, obs)
         if obs["after"] != obs["before"]:
             fails.append("original-modified: the original table changed")
         cols = case["cols"]
@@ -268,7 +304,69 @@ class C06(Prop):
                 fails.append(f"label: column {c['name']!r} carries {r['units'][j]!r}, expected {want_unit!r}")
         return fails
 
+    def stream_oracle(self, case, obs):
+        st = obs.get("stream")
+        if st is None:
+            return []
+        fails = []
+        b = obs["before"]
+        if st["kinds"] != ["DIRECTIVE", "TABLE", "BLANK", "TABLE"][: st["n"]] or st.get("foreign"):
+            fails.append(f"stream-shape: normalized stream yields {st['kinds']}")
+        if "error" in obs:
+            if "error" not in st or st["n"] != 1:
+                fails.append(f"stream-error: convert_units fails ({obs['error']}) but the stream delivered {st['n']} blocks, error {st.get('error')}")
+            return fails
+        if "error" in st:
+            fails.append(f"stream-error: stream raised {st['error']} where convert_units succeeds")
+            return fails
+        if st["n"] != 4:
+            fails.append(f"stream-shape: {st['n']} blocks of 4 delivered")
+            return fails
+        r = obs["result"]
+        for k in ("names", "units", "cols", "index", "dests"):
+            if st["tables"][0][k] != r[k]:
+                fails.append(f"stream-table: dispatched table differs from convert_units in {k}")
+            if st["tables"][1][k] != b[k]:
+                fails.append(f"stream-untouched: table without a dispatcher changed in {k}")
+        if st["sources_after"][0] != dict(b) or st["sources_after"][1]["cols"] != b["cols"]:
+            fails.append("stream-original: a source table of the stream was modified")
+        return fails
+
+    def multi_coq(self, case, obs):
+        a = self.to_coq1(case, obs)
+        out = [] if a is None else ["(inl " + a + ")"]
+        st = obs.get("stream")
+        if a is not None and st is not None and not st.get("foreign"):
+            b = obs["before"]
+            cols = g_list([f"(mkcol {g_str(n)} {g_str(u)} {g_list([str(x) for x in v])})" for n, u, v in zip(b["names"], b["units"], b["cols"])])
+            gt = lambda t: g_opt(None if t is None else g_str(t))
+            names = [c["name"] for c in case["cols"]]
+            d = [(n, t) for n, t in zip(names, case["targets"])]
+            if case.get("extra_dict"):
+                d.append(("not_a_column", "m"))
+            dd = g_list([g_pair(g_str(n), gt(t)) for n, t in d])
+            p = {"base": "PBase", "list": "(PList " + g_list([gt(t) for t in case["targets"]]) + ")",
+                 "dict": f"(PDict {dd})", "callable": f"(PFun {dd})"}[case["form"]]
+            tab = g_list([g_pair(g_pair(g_pair(g_str(k[0]), gt(k[1])), g_list([str(x) for x in k[2]])),
+                                 g_opt(None if k[3] is None else g_pair(g_list([str(x) for x in k[3][0]]), g_str(k[3][1]))))
+                          for k in obs["calls"]])
+            if "error" in st:
+                err = "ConverterFailure" if st["error"] == case.get("fail_exc", "ConverterFailure") else st["error"]
+                code = ERR.get(err, 9)
+            else:
+                code = 0
+            gc = lambda snap: g_list([f"(mkcol {g_str(n)} {g_str(u)} {g_list([str(x) for x in v])})"
+                                      for n, u, v in zip(snap["names"], snap["units"], snap["cols"])])
+            tabs = st["tables"] + [None, None]
+            r1 = gc(tabs[0]) if tabs[0] else "[]"
+            r2 = gc(tabs[1]) if tabs[1] else "[]"
+            out.append("(inr (" + ", ".join([g_str("t"), cols, p, tab, str(code) + "%N", f"{st['n']}%nat", r1, r2]) + "))")
+        return out
+
     def to_coq(self, case, obs):
+        return None
+
+    def to_coq1(self, case, obs):
         if case["pint"]:
             return None
         b = obs["before"]
